@@ -16,10 +16,22 @@ use std::collections::HashSet;
 use std::fmt::Debug;
 use std::hash::Hash;
 use shared::hybrid::{EventKey, SeedId};
+#[cfg(not(kolibrie_verif))]
 use std::sync::mpsc::Receiver;
+#[cfg(not(kolibrie_verif))]
 use std::sync::mpsc::{channel, Sender};
+#[cfg(kolibrie_verif)]
+use kolibrie_verif_rt::sync::mpsc::{channel, Receiver, Sender};
+#[cfg(not(kolibrie_verif))]
 use std::sync::{Arc, Mutex};
+#[cfg(kolibrie_verif)]
+use std::sync::Arc;
+#[cfg(kolibrie_verif)]
+use kolibrie_verif_rt::sync::Mutex;
+#[cfg(not(kolibrie_verif))]
 use std::thread;
+#[cfg(kolibrie_verif)]
+use kolibrie_verif_rt::thread;
 use std::{f64, mem};
 #[cfg(test)]
 use std::{println as warn, println as debug};
